@@ -5,7 +5,7 @@
 use crate::elems::*;
 use crate::events::{ids, jstr};
 use crate::vals::*;
-use crate::{ev, with_arr, with_arr2, with_box, with_box2, with_iter, with_len, with_nest};
+use crate::{ev, with_arr, with_arr2, with_box, with_box2, with_iter, with_iter2, with_len, with_nest};
 use generic_array::functional::FunctionalSequence;
 use generic_array::sequence::GenericSequence;
 use generic_array::GenericArray;
@@ -454,6 +454,7 @@ impl<E: Elem> Interp<E> {
         let elems: Vec<E> = elem_ids.iter().map(|id| self.unbag(*id).unwrap_or_else(|| panic!("HARNESS: no elem {}", id))).collect();
         let n = match ju(st, "n") {
             Some(n) => n,
+            None if op == "clone_from" || op == "iter_clone_from" => vals.get(1).map(|v| describe(v).items.len() as i64).unwrap_or(0),
             None => vals.first().map(|v| describe(v).items.len() as i64).unwrap_or(0),
         };
         let mut truthful = st.get("hint").is_none();
@@ -580,7 +581,7 @@ impl<E: Elem> Interp<E> {
 fn default_form(op: &str) -> &'static str {
     match op {
         "serialize" => "ref",
-        "next" | "next_back" | "nth" | "nth_back" | "len" | "size_hint" | "as_slice" | "as_mut_swap" | "debug" | "iter_clone" | "clone" | "box_clone" => "ref",
+        "next" | "next_back" | "nth" | "nth_back" | "len" | "size_hint" | "as_slice" | "as_mut_swap" | "debug" | "iter_clone" | "clone" | "box_clone" | "clone_from" | "iter_clone_from" => "ref",
         _ => "own",
     }
 }
@@ -779,6 +780,18 @@ fn exec<E: Elem>(op: &str, vals: &mut Vec<Val<E>>, forms: &[String], arg: i64, m
             o
         }
         "iter_clone" => Outcome::outs([with_iter!(&vals[0], it => it.clone().wrap(), bad())]),
+        // Clone::clone_from: operand 0 is overwritten with clones of operand 1 (both stay in the pool)
+        "clone_from" | "iter_clone_from" => {
+            let (a, b) = vals.split_at_mut(1);
+            if op == "iter_clone_from" {
+                with_iter2!((&mut a[0], &b[0]), x, y => x.clone_from(y), bad());
+            } else if with_box!(&b[0], _y => true, false) {
+                with_box2!((&mut a[0], &b[0]), x, y => x.clone_from(y), bad());
+            } else {
+                with_arr2!((&mut a[0], &b[0]), x, y => x.clone_from(y), bad());
+            }
+            Outcome::new()
+        }
         // ---- functional operations -----------------------------------------------------
         "generate" => Outcome::outs([match okind {
             "box" => with_len!(n, N => Box::<GenericArray<E, N>>::generate(|i| ctx.gen::<E>(i)).wrap(), bad()),
